@@ -213,7 +213,14 @@ fn expression_strigify_write<'s, W: FmtWrite>(
             dot_location,
             field_location,
         } => {
-            expression_strigify_write(obj, stringifier, ExpressionLevel::Member)?;
+            if let Expression::LitInt { .. } | Expression::LitFloat { .. } = &**obj {
+                // (`1.a` would be read back as a number followed by garbage)
+                stringifier.write_str("(")?;
+                expression_strigify_write(obj, stringifier, ExpressionLevel::Cond)?;
+                stringifier.write_str(")")?;
+            } else {
+                expression_strigify_write(obj, stringifier, ExpressionLevel::Member)?;
+            }
             stringifier.write_token(".", None, dot_location)?;
             stringifier.write_token(&field_name, Some(&field_name), field_location)?;
         }
